@@ -61,7 +61,7 @@ THEOREMS = ["Marwood.Proofs.C12." + t for t in [
     "allocated_after_gc_iff_live_after", "alloc_refines_policy_wf", "used_after_gc_eq_live_count",
     "heap_run_capacity_bounded", "pre_h4"]]
 
-CHEAP = ["pairs", "vectors", "strings", "symbols", "bignums"]
+CHEAP = ["pairs", "vectors", "strings", "symbols", "bignums", "sliced"]
 MEDIUM = ["closures", "continuations"]
 COMPILING = ["eval", "toplevel", "mixed", "errors", "syntaxerrors", "unbound", "globalrefs", "evallex"]
 
